@@ -391,3 +391,7 @@ CHECKS["C04"]["text"] += (" A fixed corpus of 290 cyclic programs (generated cyc
                           "sides, the cyclic family) is run under unbuffered, rc_first and five fixed random orders independently of the run's seed: the "
                           "(program, mode) pairs on which the pinned tree's unbuffered modes already fail are listed one by one "
                           "(tools/c04_corpus_known.json, known finding KF38), every other failing pair is a violation.")
+for _k, _what in (("C25", "340 programs x {export, export with cycle breaking}"), ("C31", "300 programs")):
+    CHECKS[_k]["text"] += (" A fixed corpus (" + _what + ", independent of the run's seed) is judged in the same way; the cases on which "
+                           "the pinned tree already fails are listed one by one (tools/" + _k.lower() + "_corpus_known.json), so that the broad "
+                           "signatures of the known findings of this property cannot hide a new failure there.")
